@@ -272,3 +272,60 @@ Proof.
   2:{ simpl. f_equal. field. lra. }
   apply is_lim_scal_l. apply is_lim_lin_pp; [apply Rinv_0_lt_compat; lra|apply Ig_lim].
 Qed.
+
+(* ------------------------------------------------------------------ Phi: symmetry, limits, range *)
+Lemma pdf_even z : pdf (- z) = pdf z.
+Proof. unfold pdf. f_equal. f_equal. ring. Qed.
+
+Lemma pdf_ex_RInt a b : ex_RInt pdf a b.
+Proof. apply (@ex_RInt_continuous R_CompleteNormedModule). intros t _. apply pdf_cont. Qed.
+
+Lemma Phi_0 : Phi 0 = 1 / 2.
+Proof. unfold Phi. rewrite (@RInt_point R_CompleteNormedModule). unfold zero; simpl. ring. Qed.
+
+Theorem Phi_sym z : Phi (- z) = 1 - Phi z.
+Proof.
+  assert (E : (fun z => Phi (- z) + Phi z) z = (fun z => Phi (- z) + Phi z) 0).
+  { apply (is_derive_0_const (fun z => Phi (- z) + Phi z)). clear z. intros z.
+    evar_last.
+    apply @is_derive_plus.
+    apply (is_derive_comp Phi Ropp). apply Phi_deriv. apply @is_derive_opp. apply is_derive_id.
+    apply Phi_deriv.
+    rewrite pdf_even. unfold plus, scal, opp, one, zero; simpl. unfold mult; simpl. ring. }
+  simpl in E. rewrite Ropp_0, Phi_0 in E. lra.
+Qed.
+
+Theorem Phi_lim_p : is_lim Phi p_infty 1.
+Proof.
+  replace (Finite 1) with (Finite (1 / 2 + 1 / 2)) by (f_equal; field).
+  unfold Phi. apply (is_lim_plus' (fun _ => 1 / 2) (fun z => RInt pdf 0 z)); [apply is_lim_const|apply pdf_integral_half].
+Qed.
+
+Theorem Phi_lim_m : is_lim Phi m_infty 0.
+Proof.
+  apply (is_lim_ext (fun z => 1 - Phi (- z))).
+  { intros z. rewrite Phi_sym. ring. }
+  replace (Finite 0) with (Finite (1 - 1)) by (f_equal; ring).
+  apply (is_lim_minus' (fun _ => 1) (fun z => Phi (- z))); [apply is_lim_const|].
+  apply (is_lim_opp_mp Phi 1 Phi_lim_p).
+Qed.
+
+Lemma Phi_le_1 z : Phi z <= 1.
+Proof.
+  apply (is_lim_le_loc (fun _ => Phi z) Phi p_infty (Phi z) 1); [|apply is_lim_const|apply Phi_lim_p].
+  exists z. intros y Hy. left. apply Phi_increasing, Hy.
+Qed.
+
+Theorem Phi_range : forall z, 0 < Phi z < 1.
+Proof.
+  assert (L : forall z, Phi z < 1).
+  { intros z. apply Rlt_le_trans with (Phi (z + 1)); [apply Phi_increasing; lra|apply Phi_le_1]. }
+  intros z. split; [|apply L]. specialize (L (- z)). rewrite Phi_sym in L. lra.
+Qed.
+
+(* the density integrates to 1 over the real line, in the sense of Coquelicot's generalised Riemann integral *)
+Lemma RInt_pdf_Phi a b : RInt pdf a b = Phi b - Phi a.
+Proof.
+  unfold Phi. rewrite <- (RInt_Chasles pdf 0 a b) by apply pdf_ex_RInt.
+  change (plus (RInt pdf 0 a) (RInt pdf a b)) with (RInt pdf 0 a + RInt pdf a b). lra.
+Qed.
